@@ -1,9 +1,13 @@
 """C06 - hook scoping follows the nearest registered package after any hook
 history (lock-step history monitor against a declarative model; mismatches are
 classified by explanatory relaxed models).  DESIGN §4 C06."""
+import atexit
+import importlib
 import itertools
 import os
+import shutil
 import sys
+import tempfile
 
 sys.path.insert(0, os.path.dirname(os.path.dirname(os.path.abspath(__file__))))
 from vlib.worker import Worker, guarded, short, use_repo
@@ -20,7 +24,10 @@ RULE = ('histories of 1-12 operations over beartype_all / beartype_package / bea
         'nested and interleaved beartyping() blocks (also left by exception), with skip lists, 4 configurations, '
         'names from a small dotted alphabet; after every operation the registry answer for every registered name, '
         'its ancestors, children, siblings and look-alikes, and the presence of the path hook, are compared with a '
-        'declarative model; distinct by the operation sequence; non-trivial = at least 2 operations')
+        'declarative model; histories also (re-)import real modules living under those names at random points: the '
+        'module must have been compiled and be checked at run time under the configuration of its nearest registered '
+        'ancestor at that moment (the per-module configuration the injected code looks up), or be left alone when none '
+        'applies; distinct by the operation sequence; non-trivial = at least 2 operations')
 
 NAMES = ['a', 'b', 'ab', 'a.b', 'a.bc', 'a.b.c', 'a.b.c.d', 'b.a', 'c', 'c.a.b', 'ab.a']
 QUERY_EXTRA = ['a.c', 'a.b.d', 'abc', 'a.bcd', 'b.ab', 'zz', 'zz.a', 'beartype', 'beartype.door', 'a.b.c.d.e', 'c.a', 'ab.a.b']
@@ -59,6 +66,45 @@ def hookable(cname, skips):
         kw['claw_skip_package_names'] = tuple(skips)
     kw.setdefault('warning_cls_on_decorator_exception', BeartypeClawDecorWarning)
     return BeartypeConf(**kw)
+
+
+# ---- real packages under the names of the alphabet (for the import operation) ----------------------------------
+REAL = {'root': None}
+LEAF_SRC = 'def f(x: float) -> float:\n    return x\n'
+IMPORT_TARGETS = ('a.b', 'a.b', 'a', 'a.b.c', 'c.a.b', 'b', 'ab')
+LAST_IMPORT = {}
+
+
+def ensure_real_packages():
+    if REAL['root'] is None:
+        root = REAL['root'] = tempfile.mkdtemp(prefix='vc06_')
+        atexit.register(shutil.rmtree, root, True)
+        for n in NAMES:
+            for pre in prefixes(n):
+                d = os.path.join(root, *pre.split('.'))
+                os.makedirs(d, exist_ok=True)
+                for fn, text in (('__init__.py', ''), ('leaf.py', LEAF_SRC)):
+                    if not os.path.exists(os.path.join(d, fn)):
+                        with open(os.path.join(d, fn), 'w') as f:
+                            f.write(text)
+        sys.path.insert(0, root)
+        sys.dont_write_bytecode = True
+        importlib.invalidate_caches()
+
+
+def import_leaf(pkg):
+    """(Re-)import pkg.leaf from scratch; record what an observer of the imported module sees."""
+    from beartype.claw._clawstate import claw_state
+    ensure_real_packages()
+    tops = {n.split('.')[0] for n in NAMES}
+    for k in [k for k in sys.modules if k.split('.')[0] in tops]:
+        del sys.modules[k]
+    sys.path_importer_cache.clear()
+    name = pkg + '.leaf'
+    mod = importlib.import_module(name)
+    LAST_IMPORT.clear()
+    LAST_IMPORT.update(name=name, wrapped=hasattr(mod.f, '__wrapped__'),
+                       conf=claw_state.module_name_to_beartype_conf.get(name))
 
 
 BUILTIN_EXCLUDED = None
@@ -165,9 +211,11 @@ def gen_history(rng, quick):
             ops.append(('packages', tuple(rng.sample(NAMES, k)), ckey, skips))
         elif r < .68:
             ops.append(('this_package', rng.choice(NAMES), ckey, skips))
-        elif r < .85 and depth < 3:
+        elif r < .80 and depth < 3:
             ops.append(('enter', ckey, skips))
             depth += 1
+        elif r < .90:
+            ops.append(('import', rng.choice(IMPORT_TARGETS)))
         elif depth > 0:
             ops.append(('exit', rng.random() < .3))     # True = left by an exception
             depth -= 1
@@ -220,6 +268,8 @@ def apply_real(op, ctxs):
             beartype_packages(op[1], conf=build_conf(op[2], op[3]))
         elif kind == 'this_package':
             call_this_package(op[1], build_conf(op[2], op[3]))
+        elif kind == 'import':
+            import_leaf(op[1])
         elif kind == 'enter':
             cm = beartyping(conf=build_conf(op[1], op[2]))
             cm.__enter__()
@@ -250,6 +300,8 @@ def apply_model(m, op):
         return m.register(op[1], op[2], op[3])
     if kind == 'this_package':
         return m.register((op[1],), op[2], op[3])
+    if kind == 'import':
+        return False
     if kind == 'enter':
         m.enter(op[1], op[2])
         return False
@@ -306,6 +358,17 @@ def run_history(ops, relax=()):
             if exp_raise != (res == 'hook-exception'):
                 return (i, f'{op_repr(op)}: ' + ('expected BeartypeClawHookException (conflicting configuration), none raised'
                                                  if exp_raise else 'raised BeartypeClawHookException although nothing conflicts'), 'conflict')
+            if op[0] == 'import':
+                c = m.conf(LAST_IMPORT['name'])
+                want = None if c is None else hookable(c[0], c[1])
+                checks = want is not None and want.strategy is not BeartypeStrategy.O0
+                if want is None and LAST_IMPORT['wrapped']:
+                    return (i, f'after {op_repr(op)}: {LAST_IMPORT["name"]} was transformed although no registration applies to it', 'import')
+                if want is not None and LAST_IMPORT['conf'] is not want and LAST_IMPORT['conf'] != want:
+                    return (i, f'after {op_repr(op)}: {LAST_IMPORT["name"]} runs under {short(LAST_IMPORT["conf"], 90)} but its nearest '
+                               f'registered ancestor says {short(want, 90)}', 'import')
+                if checks and not LAST_IMPORT['wrapped']:
+                    return (i, f'after {op_repr(op)}: {LAST_IMPORT["name"]} was not transformed although {short(want, 90)} applies', 'import')
             got, hook = observe(qs)
             exp, ehook = expected(m, qs)
             bad = [q for q in qs if got[q] is not exp[q] and got[q] != exp[q]]
